@@ -361,7 +361,7 @@ class Clump(Relation):
     coq_case_type = "ccase"
     coq_model = "model_clump"
     coq_imports = ["PearsonQ", "C17_Model"]
-    budget = {"quick": 500, "thorough": 8000}
+    budget = {"quick": 800, "thorough": 6000}
     max_cases_per_shard = 50
     timeout_per_case = 40
     anchors = [("haptools/clump.py", "SummaryStats.Load"), ("haptools/clump.py", "SummaryStats.GetNextIndexVariant"),
@@ -464,14 +464,8 @@ class Clump(Relation):
             shutil.rmtree(d, ignore_errors=True)
 
     # ---- encoding
-    def _interners(self, cfg):
-        ids, toks = L.Interner(), L.Interner()
-        names = sorted(set((cfg["snp"] or {"samples": []})["samples"]) | set((cfg["str"] or {"samples": []})["samples"]))
-        rank = {s: i for i, s in enumerate(names)}
-        return ids, toks, rank
-
     def encode(self, cfg, obs):
-        toks, rank = L.Interner(), None
+        toks = L.Interner()
         names = sorted(set((cfg["snp"] or {"samples": []})["samples"]) | set((cfg["str"] or {"samples": []})["samples"]))
         rank = {s: i for i, s in enumerate(names)}
         pr = lambda c: f"({L.z(c[0])}, {L.z(c[1])})"
@@ -616,7 +610,7 @@ class ComputeLDRel(Relation):
     coq_case_type = "dcase"
     coq_model = "model_computeld"
     coq_imports = ["PearsonQ", "C17_Model"]
-    budget = {"quick": 2500, "thorough": 40000}
+    budget = {"quick": 4000, "thorough": 40000}
     max_cases_per_shard = 300
     timeout_per_case = 30
     anchors = [("haptools/clump.py", "ComputeLD"), ("haptools/clump.py", "_FilterGts"),
